@@ -19,7 +19,7 @@ META = {
             "TIE: translator anchors (guard wrappers, MAX_NESTING_LEVEL, parse_chunk guard), hook-measured nesting level = the model's "
             "level on generated nested programs, hook limit = generated LIMIT. "
             "EXPLORATION only (not proved): bytes of stack per frame, wall-clock, the rowan builder: searched in child processes on a "
-            "2 MiB thread (ladders of 37 kinds up to 10^4..4*10^5 levels, huge flat inputs, token soup, random bytes, mutated std files, "
+            "2 MiB thread (ladders of 37 kinds up to 10^4..10^5 levels, huge flat inputs, token soup, random bytes, mutated std files, "
             "all language levels, doc parsing on/off); a signal, a panic or a timeout is the replay.",
     "note": "Trusted: Coq kernel; the call-graph translator lib/c02_translate.py (regex based, over-approximating: an ambiguous name "
             "gets every candidate; function pointers/closures are not followed); the hand model of parse_chunk; the token-level "
@@ -28,7 +28,7 @@ META = {
                  "regenerated call graph) + hook-measured recursion depth vs model + crash/timeout search in child processes",
 }
 
-PRELUDE = "From Coq Require Import List NArith Bool.\nImport ListNotations.\n"
+PRELUDE = "From Coq Require Import List Bool NArith.\nImport ListNotations.\n"
 
 THEOREMS = [("chunk_terminates", "theorem"), ("guard_needed_refuted", "refutation"), ("graph_guards_every_cycle", "table"),
             ("stack_frames_bounded", "theorem"), ("stack_unbounded_without_guard", "refutation"), ("pump_cost_linear", "theorem"),
@@ -152,7 +152,7 @@ def main(argv):
             correspondence(ck, bins["c02"], ck.scale(120, 1500), g["limit"] if g else None)
         if ck.broken:
             ck.deep = True
-        search(ck, bins["c02"], ck.scale(300, 20000))
+        search(ck, bins["c02"], ck.scale(300, 6000))
     ck.finish(
         trusted_base=TRUSTED,
         rule="search: every case is parsed in a child process on a thread with a 2 MiB stack under a wall-clock budget: nesting ladders "
